@@ -209,6 +209,10 @@ class Harness:
                                                     final_eval_fn_map={'final': self.HashEval('final')}))
     except fault.Crash:
       result = ('crash', None)
+    except (KeyboardInterrupt, SystemExit):
+      if not (flt and flt[0] in ('interrupt', 'exit')):
+        raise
+      result = ('crash', None)   # the interrupted process ends here, after whatever its handlers did on the way out
     return result, inj.trace
 
 
@@ -284,6 +288,10 @@ def explore(case):
       out = []
       for e in trace:
         out.append(('crash', e['i']))
+        # the same point reached by a signal that Python delivers as an exception (handlers of the library run)
+        out.append(('interrupt', e['i']))
+        if e['kind'] in ('step', 'eval'):
+          out.append(('exit', e['i']))
         if e.get('pending'):
           # data written but not yet flushed/closed is lost with the process
           out.append(('crash_lose', e['i']))
